@@ -2,6 +2,7 @@ package vc
 
 import (
 	"fmt"
+	"go/ast"
 	"go/token"
 	"go/types"
 
@@ -11,6 +12,14 @@ import (
 func (fc *fnCtx) instr(ins ssa.Instruction, st *State) {
 	switch ins := ins.(type) {
 	case *ssa.DebugRef:
+		// remember the value of source-level locals so that loop invariants can name them
+		if id, ok := ins.Expr.(*ast.Ident); ok && !ins.IsAddr {
+			if v, ok := fc.vals[ins.X]; ok && v.Addr == nil && len(v.Tup) == 0 {
+				fc.locals[id.Name] = v
+			} else if c, ok := ins.X.(*ssa.Const); ok {
+				fc.locals[id.Name] = fc.constVal(c)
+			}
+		}
 	case *ssa.Alloc:
 		fc.doAlloc(ins, st)
 	case *ssa.UnOp:
